@@ -183,6 +183,70 @@ pub fn deep_histories(tier: &str, prop: &str) -> (Acc, SpaceReport) {
     (acc, rep)
 }
 
+/// Repetition roots whose position already has a cached exact entry: the game went x, m, x', m', x - the engine's own
+/// earlier search of the position after x (no history then) left an exact root entry whose move is m, which is now the
+/// move the repetition filter removes. For every reply m (one root per reply: e3::all_shuffles), the earlier search to
+/// depth D in 3..=4 and the later one to every limit d < D: no node deeper than d may be entered, a legal move must come.
+pub fn repetition_histories(tier: &str) -> (Acc, SpaceReport) {
+    let q = tier == "quick";
+    let mut specs: Vec<RootSpec> = vec![];
+    for (name, root) in e3::family_roots() {
+        if q && (name == "tactical" || name == "opening") {
+            continue;
+        }
+        specs.extend(e3::all_shuffles(root, if q { 2 } else { 4 }));
+    }
+    for r in tiny_roots().iter().step_by(if q { 6 } else { 1 }) {
+        specs.extend(e3::all_shuffles(r, if q { 2 } else { 4 }));
+    }
+    let t0 = std::time::Instant::now();
+    let acc = par_items(&specs, &|_, spec, acc| {
+        if spec.history.len() != 5 {
+            return;
+        }
+        // the position after x, as the engine met it the first time: no repetition in its record yet
+        let first = RootSpec { fen: spec.fen.clone(), history: vec![spec.history[0].clone()] };
+        let (Ok((g1, p1)), Ok((g5, p5))) = (first.build(), spec.build()) else { return };
+        if p1.key() != p5.key() {
+            // the shuffle lost a castling right or an en-passant file on the way: not the same position, no cached entry applies
+            acc.count("shuffles that do not return to the same position (rights or en passant changed): skipped");
+            return;
+        }
+        let legal = p5.legal_uci_sorted();
+        for big in 3..=4u8 {
+            let mut table = new_table();
+            let r1 = run_search(&g1, &mut table, &SearchCfg::depth(big));
+            if r1.result.is_err() {
+                return;
+            }
+            let cached_is_excluded = r1.result.as_ref().ok().and_then(|m| m.clone()) == Some(spec.history[1].clone());
+            for d in 1..big {
+                let mut t = table.clone();
+                let run = run_search(&g5, &mut t, &SearchCfg::depth(d));
+                acc.states += 1;
+                acc.evaluations += 1;
+                acc.transitions += 1;
+                acc.outcome(if cached_is_excluded { "the cached move is the excluded repetition move" } else { "the cached move is another move" });
+                let steps = format!("S[{} ; depth {}] ; S[{} ; depth {}]", first.text(), big, spec.text(), d);
+                let replay = json::obj(vec![("kind", json::s("c08-repetition")), ("fen", json::s(spec.fen.clone())), ("history", json::s(spec.history.join(" "))), ("first_depth", json::i(big)), ("depth", json::i(d))]);
+                match &run.result {
+                    Err(p) => acc.violation(format!("c08-rep-crash|{}|{}|{}", spec.text(), big, d), format!("search crashed: {} [{}]", p, steps), replay.clone()),
+                    Ok(None) if !legal.is_empty() => acc.violation(format!("c08-rep-none|{}|{}|{}", spec.text(), big, d), format!("no move announced [{}]", steps), replay.clone()),
+                    Ok(Some(m)) if !legal.contains(m) => acc.violation(format!("c08-rep-illegal|{}|{}|{}", spec.text(), big, d), format!("illegal move {} announced [{}]", m, steps), replay.clone()),
+                    _ => {}
+                }
+                if run.deeper_seen {
+                    acc.violation(format!("c08-rep-deeper|{}|{}|{}", spec.text(), big, d), format!("depth limit {} but a node of iteration depth {} was entered (the transcript says {:?}) [{}]", d, run.max_iter_depth, info_depths(&run.transcript), steps), replay.clone());
+                } else if run.watchdog_fired {
+                    acc.violation(format!("c08-rep-runon|{}|{}|{}", spec.text(), big, d), format!("did not end by itself [{}]", steps), replay.clone());
+                }
+            }
+        }
+    });
+    let rep = SpaceReport { name: format!("repetition roots with a cached exact entry: {} shuffle histories (one per possible repetition move), earlier search of the position to depth 3..=4, later search with every smaller limit", specs.len()), states: acc.states, exhaustive: true, note: format!("[{:.1}s]", t0.elapsed().as_secs_f64()) };
+    (acc, rep)
+}
+
 pub fn run(tier: &str, seed: i64) -> Outcome {
     let q = tier == "quick";
     // (a) E3 words
@@ -225,6 +289,9 @@ pub fn run(tier: &str, seed: i64) -> Outcome {
         out.caps.push(format!("{} depth-limited searches on tiny roots were cut by the poll cap of {} before reaching their limit; for them only 'no deeper node entered so far, no crash' was established", n, wd_limit));
     }
     out.acc.merge(acc);
+    let (rh, rh_rep) = repetition_histories(tier);
+    out.spaces.push(rh_rep);
+    out.acc.merge(rh);
     let (dh, dh_rep) = deep_histories(tier, "C08");
     out.spaces.push(dh_rep);
     out.acc.merge(dh);
@@ -235,6 +302,9 @@ pub fn run(tier: &str, seed: i64) -> Outcome {
 }
 
 pub fn replay(j: &J) -> Result<Acc, String> {
+    if j.get("kind").and_then(|x| x.as_str()) == Some("c08-repetition") {
+        return Ok(repetition_histories("quick").0);
+    }
     let fen = j.get("fen").and_then(|x| x.as_str()).ok_or("fen")?;
     let steps: Vec<(Option<u8>, u64)> = j.get("steps").and_then(|x| x.as_arr()).ok_or("steps")?.iter().map(|s| (s.get("depth").and_then(|d| d.as_i()).map(|d| d as u8), s.get("watchdog").and_then(|d| d.as_i()).unwrap_or(100000) as u64)).collect();
     let mut acc = Acc::new();
